@@ -334,6 +334,8 @@ func (h *httpServerHandler) handlePostRequest(ctx context.Context, w http.Respon
 			sessionID = session.GetID()
 		}
 		notificationSender := newSSENotificationSender(w, flusher, sessionID)
+		// One event ID generator per response stream: IDs must be unique within the stream.
+		notificationSender.sseWriter = sseResponder.sseWriter
 		reqCtx := withNotificationSender(ctx, notificationSender)
 		if session != nil {
 			reqCtx = setSessionToContext(reqCtx, session)
